@@ -150,20 +150,20 @@ func (p prediction) String() string {
 }
 
 type seqCase struct {
-	r      *run.R
-	caseID string
-	rng    *rand.Rand
-	cfg    *config
-	m      *model
-	mgr    network.ResourceManager
-	real   map[int]*realH
-	stored []storedH
-	steps  []step
-	cnt    map[string]int
-	start  time.Time
-	ticks  int64
-	stop   bool // history ended (violation or known finding)
-	curOp  string
+	r                   *run.R
+	caseID              string
+	rng                 *rand.Rand
+	cfg                 *config
+	m                   *model
+	mgr                 network.ResourceManager
+	real                map[int]*realH
+	stored              []storedH
+	steps               []step
+	cnt                 map[string]int
+	start               time.Time
+	ticks               int64
+	stop                bool // history ended (violation or known finding)
+	curOp               string
 	refusals, reparents int
 }
 
